@@ -50,8 +50,8 @@ META.update({
  "C15": {"technique": "property-based testing; validity predicate per dispatch replayed on model populations",
          "text": coop_text("2-5 queues of all six kinds are bound in generated order to a paused concurrency-1 worker, generated populations are loaded (and extended at settled points), and every dispatch is checked against the strategy's rule on the model's queue lengths (round-robin cursor, max, min among non-empty) and against the head of the chosen queue."),
          "note": COOP_NOTE + " Runs on the base schedule: the model must know every queue length at every dispatch."},
- "C17": {"technique": "property-based testing with generated schedules; bounds always + exactness at quiescent points against harness accounting",
-         "text": coop_text("sampler goroutines read NumPending/NumProcessing/Metrics while producers, dispatcher, purges and completions run; every sample must be within its logical bounds, counters monotone, and at every quiescent point the values must equal the harness's own accounting (per-queue pending, worker pending = sum, Submitted, Completed = Successful + Failed = finished invocations)."),
+ "C17": {"technique": "property-based testing with generated schedules; bounds always + exactness at quiescent points against harness accounting; model-based test of the queue types' length",
+         "text": coop_text("sampler goroutines read NumPending/NumProcessing/Metrics while producers, dispatcher, purges and completions run; every sample must be within its logical bounds, counters monotone, and at every quiescent point the values must equal the harness's own accounting (per-queue pending, worker pending = sum, Submitted, Completed = Successful + Failed = finished invocations).") + " Second part: the differential test of the FIFO/priority queue types (every step compares Len() with a slice / sorted reference model, incl. exactly full and drained segments) on the uninstrumented code.",
          "note": COOP_NOTE},
  "C18": {"technique": "property-based testing with generated schedules and virtual time; exact live-goroutine accounting",
          "text": coop_text("at every quiescent point idle+busy workers are bounded by the largest configured concurrency, a running idle worker keeps >= 1 idle goroutine, idle workers beyond the minimum are retired after the expiry (virtual clock), the number of live goroutines started by library go statements equals dispatcher + remover + listener + idle + busy, and after Stop it is exactly 0, over generated TunePool sequences and Stop/Restart cycles."),
